@@ -273,7 +273,7 @@ impl Engine for OrswotEng {
 }
 
 impl crate::drive::Driveable for OrswotEng {
-    fn random_cmd(s: &S, rng: &mut rand::rngs::StdRng, d: &Dims) -> Option<Value> {
+    fn random_cmd(s: &S, _r: usize, rng: &mut rand::rngs::StdRng, d: &Dims) -> Option<Value> {
         use rand::Rng;
         let m = rng.gen_range(1..=d.m) as u64;
         let present: Vec<u64> = s.read().val.iter().map(|x| *x as u64).collect();
